@@ -88,6 +88,16 @@ func (cl *Clients) Delete(id string) {
 	delete(cl.internal, id)
 }
 
+// deleteIfCurrent removes the client registered under id only if that entry still is val;
+// a newer connection with the same id that has registered in the meantime is left alone.
+func (cl *Clients) deleteIfCurrent(id string, val *Client) {
+	cl.Lock()
+	defer cl.Unlock()
+	if current, ok := cl.internal[id]; ok && current == val {
+		delete(cl.internal, id)
+	}
+}
+
 // GetByListener returns clients matching a listener id.
 func (cl *Clients) GetByListener(id string) []*Client {
 	cl.RLock()
